@@ -115,7 +115,7 @@ contract(M, 'TemplateModel._get_template_dense', props=['C05'],
     # that column's peak-to-peak amplitude"; "(or the caller's explicit list)"
     ensures=[('one-column-and-one-amplitude-per-listed-channel', 'len(result.amplitude) == len(result.channel_ids) and len(result.template.colmax) == len(result.channel_ids) and result.template.ndim == 2'),
              ('amplitude-j-is-the-peak-to-peak-of-column-j', 'all(result.amplitude[j] == %s for j in range(len(result.channel_ids)))' % (_RAMP % ('j', 'j'))),
-             ('explicit-list-is-returned-as-given', 'implies(channel_ids is not None, result.channel_ids is channel_ids)'),
+             ('explicit-list-is-returned-as-given', 'implies(channel_ids is not None, len(result.channel_ids) == len(channel_ids) and all(result.channel_ids[j] == channel_ids[j] for j in range(len(channel_ids))))'),
              ('automatic-list-is-not-empty', 'implies(channel_ids is None, len(result.channel_ids) >= 1)'),
              ('automatic-list-amplitudes-decrease', 'implies(channel_ids is None, all(result.amplitude[i] >= result.amplitude[j] for i in range(len(result.amplitude)) for j in range(i + 1, len(result.amplitude))))'),
              ('automatic-list-distinct-channels-in-range', 'implies(channel_ids is None, all(0 <= result.channel_ids[i] and result.channel_ids[i] < nc for i in range(len(result.channel_ids))) and all(result.channel_ids[i] != result.channel_ids[j] for i in range(len(result.channel_ids)) for j in range(i + 1, len(result.channel_ids))))'),
@@ -186,3 +186,16 @@ contract(M, 'TemplateModel._get_template_sparse', props=['C05'], params={'templa
              # "column j of the returned waveform is the (optionally unwhitened) template on the j-th listed channel" (whitened request: the stored column itself)
              ('whitened-request-returns-the-stored-columns', 'implies(not unwhiten, all(any(%s[template_id][c] == result.channel_ids[j] and all(result.template[s][j] == %s for s in range(%s.n_samples)) for c in range(%s.width)) for j in range(len(result.channel_ids))))' % (_SC, _TV('s', 'c'), _SD, _SD)),
              ('peak-channel-is-listed-with-the-largest-amplitude', 'any(result.channel_ids[j] == result.best_channel and all(result.amplitude[j] >= result.amplitude[i] for i in range(len(result.amplitude))) for j in range(len(result.channel_ids)))')])
+
+# get_template: "With dense storage ...; with sparse storage ..." - the dispatch on the storage layout; each variant re-states the
+# postcondition of the route it must take (taken programmatically from the route's contract, so the two cannot drift apart)
+_cd = REGISTRY[(M, 'TemplateModel._get_template_dense')]
+_cs = REGISTRY[(M, 'TemplateModel._get_template_sparse')]
+declare_class('DenseStore', None, fields={'data': 'obj[TemplateStack]', 'cols': 'none'})
+contract(M, 'TemplateModel.get_template', variant='dense-storage', props=['C05'],
+    params=dict(_cd.params), defaults=dict(_cd.defaults), fields=dict(_cd.fields), let=dict(_cd.let), requires=list(_cd.requires), result=_cd.result,
+    ensures=list(_cd.ensures))
+contract(M, 'TemplateModel.get_template', variant='sparse-storage', props=['C05'],
+    params={'template_id': 'int', 'channel_ids': 'opt[arr[int]]', 'amplitude_threshold': 'opt[real]', 'unwhiten': 'bool'},
+    defaults={'channel_ids': 'None', 'amplitude_threshold': 'None', 'unwhiten': 'True'}, fields=dict(_cs.fields), requires=list(_cs.requires), result=_cs.result,
+    ensures=list(_cs.ensures))
